@@ -14,7 +14,7 @@ QUICK = {
    }
 THOROUGH = {
     "exhaustive": [("2sess-2mbox-3msgs-depth7", dict(depth=7, maxid=3, mbox=("inbox", "b"), acts=ALL)),
-                   ("1sess-2mbox-4msgs-depth8", dict(depth=8, maxid=4, sess=("A",), mbox=("inbox", "b"), acts=ALL,
+                   ("1sess-2mbox-4msgs-depth7", dict(depth=7, maxid=4, sess=("A",), mbox=("inbox", "b"), acts=ALL,
                                                      sets="SetsMedium"))],
     "simulate": [("2mbox", dict(mbox=("inbox", "b"), maxid=8, maxpend=8, sets="SetsMedium", acts=ALL), 800, 32)],
     "random": 800,
